@@ -141,38 +141,68 @@ class _Pat:
 
 
 class _Re:
+    """stands in for the `re` module while simplify.py is executed: patterns it compiles (at import time or inside
+    the function) and direct `re.sub` calls are logged when they substitute"""
+
     def __init__(self, log):
         self._log = log
 
     def compile(self, *a, **k):
         return _Pat(re.compile(*a, **k), self._log)
 
+    def sub(self, pattern, repl, string, *a, **k):
+        real = pattern._real if isinstance(pattern, _Pat) else re.compile(pattern)
+        self._log.append((real, repl))
+        return real.sub(repl, string, *a, **k)
+
     def __getattr__(self, n):
         return getattr(re, n)
 
 
 _SUBS = None
+SUBS_NOTE = None
 
 
 def learned_subs():
     """the three (compiled pattern, replacement) pairs simplify_string applies to a window title, in
     the order it applies them, observed on one probe call of the real function (so that editing a
-    pattern in the source changes the parameter, not the model)"""
-    global _SUBS
+    pattern in the source changes the parameter, not the model). The probe runs a private copy of
+    simplify.py executed with `re` replaced, so patterns compiled at module level are seen as well.
+    None when the probe does not see exactly three substitutions (the code was restructured): the
+    exact strings are then not predicted by the model - the correspondence on what the property is
+    about (shape, untouched keys, a string under the key) does not need them."""
+    global _SUBS, SUBS_NOTE
     if _SUBS is None:
+        import importlib.util
+        import sys
+
         import aw_transform.simplify as S
 
         log = []
-        old = S.re
-        S.re = _Re(log)
+        real = sys.modules["re"]
+        sys.modules["re"] = _Re(log)
         try:
-            S.simplify_string([mk([None, 0, 0, {"title": "(1) * t FPS: 1.0", "app": "a"}])], "title")
+            spec = importlib.util.spec_from_file_location("aw_transform._simplify_probe", S.__file__)
+            mod = importlib.util.module_from_spec(spec)
+            spec.loader.exec_module(mod)
+        except Exception as exc:  # noqa: BLE001 - the probe is best effort
+            mod, SUBS_NOTE = None, f"probe copy of simplify.py could not be executed: {type(exc).__name__}"
         finally:
-            S.re = old
-        if len(log) != 3:
-            raise RuntimeError(f"simplify_string applied {len(log)} substitutions to the probe title, model has 3")
-        _SUBS = log
-    return _SUBS
+            sys.modules["re"] = real
+        del log[:]
+        if mod is not None:
+            try:
+                mod.simplify_string([mk([None, 0, 0, {"title": "(1) * t FPS: 1.0", "app": "a"}])], "title")
+            except Exception as exc:  # noqa: BLE001
+                SUBS_NOTE = f"probe call of simplify_string raised {type(exc).__name__}"
+                del log[:]
+        if len(log) == 3:
+            _SUBS = list(log)
+        else:
+            _SUBS = False
+            SUBS_NOTE = SUBS_NOTE or f"simplify_string applied {len(log)} observable substitutions to the probe title, the model has 3"
+            print("note: C19 " + SUBS_NOTE + ": exact strings written by simplify_string are not predicted")
+    return _SUBS or None
 
 
 def p_subtables(case):
@@ -183,8 +213,8 @@ def p_subtables(case):
         if isinstance(v, str) and v not in cur:
             cur.append(v)
     parts = []
-    for pat, repl in subs:
-        nxt = [pat.sub(repl, s) for s in cur]
+    for pat, repl in subs or [(None, None)] * 3:
+        nxt = [pat.sub(repl, s) if pat is not None else s for s in cur]
         parts.append(p_list(list(zip(cur, nxt)), lambda ab: hx(ab[0]) + " " + hx(ab[1])))
         cur = list(dict.fromkeys(nxt))
     return " ".join(parts)
